@@ -23,6 +23,12 @@ TWIN = os.environ.get('VERIF_TWIN') == '1'
 EXCL = [tuple(v) for v in json.loads(os.environ.get('VERIF_EXCLUDE', '[]'))]
 ACTIVE_KF = set(json.loads(os.environ.get('VERIF_KF', '[]')))
 STATS = {'paths': 0, 'nontrivial': 0}
+THOROUGH = os.environ.get('VERIF_TIER') == 'thorough'
+
+
+def bound(quick, thorough):
+    """A bound that is larger in the thorough tier."""
+    return thorough if THOROUGH else quick
 
 
 def part(i, default=None):
